@@ -23,7 +23,9 @@ Inductive pv : Type :=
 | PList (sym : bool) (l : list pv)           (* sym = true: pg.List, false: plain list *)
 | PTuple (l : list pv)
 | PDict (sym : bool) (ents : list (key * pv))  (* insertion order; sym = true: pg.Dict *)
-| PObj (name : list N) (ents : list (key * pv)). (* pg.Object of the class with this __qualname__; fields in declaration order *)
+| PObj (name : list N) (uid : N) (ents : list (key * pv)).
+  (* pg.Object of the class with this __qualname__; uid tells apart different classes that share a __qualname__;
+     fields in declaration order *)
 
 Inductive err : Type := ETypeError | ERecursion | EUnmodelled.
 Inductive result (A : Type) : Type := Ok (a : A) | Err (e : err).
@@ -116,7 +118,7 @@ Definition rank (v : pv) : list N :=
   match v with
   | PMissing => r_missing t | PNone => r_none t | PBool _ => r_bool t | PInt _ => r_int t
   | PFlt _ _ => r_float t | PStr _ => r_str t | PList _ _ => r_list t | PTuple _ => r_tuple t
-  | PDict _ _ => r_dict t | PObj name _ => name
+  | PDict _ _ => r_dict t | PObj name _ _ => name
   end.
 
 (* type(left) is type(right) *)
@@ -125,7 +127,7 @@ Definition same_type (a b : pv) : bool :=
   | PMissing, PMissing | PNone, PNone | PBool _, PBool _ | PInt _, PInt _ | PFlt _ _, PFlt _ _
   | PStr _, PStr _ | PTuple _, PTuple _ => true
   | PList s _, PList s' _ | PDict s _, PDict s' _ => Bool.eqb s s'
-  | PObj n _, PObj n' _ => str_eqb n n'
+  | PObj n u _, PObj n' u' _ => str_eqb n n' && N.eqb u u'
   | _, _ => false
   end.
 
@@ -199,9 +201,9 @@ Fixpoint eq_f (n : nat) (a b : pv) {struct n} : bool :=
     | PTuple la, PTuple lb => list_eqb (eq_f n') la lb
     | PDict _ ea, PDict _ eb => dict_eqb (eq_f n') ea eb
     | PDict _ _, _ => false
-    | PObj na ea, PObj nb eb => str_eqb na nb && dict_eqb (eq_f n') ea eb   (* Object.sym_eq *)
-    | PObj _ _, _ => false
-    | _, PObj _ _ => false                                                   (* right.sym_eq(left): types differ *)
+    | PObj na ua ea, PObj nb ub eb => str_eqb na nb && N.eqb ua ub && dict_eqb (eq_f n') ea eb   (* Object.sym_eq *)
+    | PObj _ _ _, _ => false
+    | _, PObj _ _ _ => false                                                   (* right.sym_eq(left): types differ *)
     | _, _ => native_eq a b                                                  (* callable_eq -> x == y *)
     end
   end.
@@ -223,10 +225,10 @@ Fixpoint lt_f (n : nat) (a b : pv) {struct n} : result bool :=
           | PDict _ eb => ents_lt (eq_f n') (lt_f n') (sort_ents ea) (sort_ents eb)
           | _ => Err EUnmodelled
           end
-      | PObj na ea =>            (* Object.sym_lt: same class -> lt of the attribute dicts, else back to base.lt *)
+      | PObj na ua ea =>         (* Object.sym_lt: same class -> lt of the attribute dicts, else back to base.lt (endless) *)
           match b with
-          | PObj nb eb =>
-              if str_eqb na nb then ents_lt (eq_f n') (lt_f n') (sort_ents ea) (sort_ents eb)
+          | PObj nb ub eb =>
+              if str_eqb na nb && N.eqb ua ub then ents_lt (eq_f n') (lt_f n') (sort_ents ea) (sort_ents eb)
               else Err ERecursion
           | _ => Err ERecursion
           end
@@ -238,7 +240,7 @@ Fixpoint lt_f (n : nat) (a b : pv) {struct n} : result bool :=
 Fixpoint depth (v : pv) : nat :=
   match v with
   | PList _ l | PTuple l => S (list_max (map depth l))
-  | PDict _ e | PObj _ e => S (list_max (map (fun kv => depth (snd kv)) e))
+  | PDict _ e | PObj _ _ e => S (list_max (map (fun kv => depth (snd kv)) e))
   | _ => O
   end.
 
@@ -250,7 +252,7 @@ Definition gt (a b : pv) : result bool := lt b a.
 (* Object.__eq__ / __ne__ for a class with use_symbolic_comparison: self.sym_eq(other) *)
 Definition sym_eq (a b : pv) : bool :=
   match a, b with
-  | PObj na ea, PObj nb eb => str_eqb na nb && eq (PDict true ea) (PDict true eb)
+  | PObj na ua ea, PObj nb ub eb => str_eqb na nb && N.eqb ua ub && eq (PDict true ea) (PDict true eb)
   | _, _ => false
   end.
 Definition op_eq (a b : pv) : bool := sym_eq a b.
@@ -262,7 +264,7 @@ Definition op_ne (a b : pv) : bool := negb (op_eq a b).
    pre-images of their children; a pg.Dict to the *set* of (key, child) pairs (frozenset), kept here
    sorted by key; plain list / dict are unhashable. *)
 Inductive cls : Type :=
-| CMissing | CNone | CNum | CStr | CList | CTuple | CDict | CObj (name : list N) | CEnt.
+| CMissing | CNone | CNum | CStr | CList | CTuple | CDict | CObj (name : list N) (uid : N) | CEnt.
 
 Inductive hterm : Type :=
 | HNum (q : Q)                 (* always Qred-uced *)
@@ -302,16 +304,16 @@ Fixpoint hpre (v : pv) : result hterm :=
       match hash_ents (map (fun kv => (fst kv, (is_missing (snd kv), hpre (snd kv)))) e) with
       | Ok hs => Ok (HNode CDict hs) | Err e => Err e end
   | PDict false _ => Err ETypeError
-  | PObj name e =>
+  | PObj name uid e =>
       match hash_ents (map (fun kv => (fst kv, (is_missing (snd kv), hpre (snd kv)))) e) with
-      | Ok hs => Ok (HNode (CObj name) [HNode CDict hs]) | Err e => Err e end
+      | Ok hs => Ok (HNode (CObj name uid) [HNode CDict hs]) | Err e => Err e end
   end.
 
 Definition cls_eqb (c d : cls) : bool :=
   match c, d with
   | CMissing, CMissing | CNone, CNone | CNum, CNum | CStr, CStr | CList, CList | CTuple, CTuple
   | CDict, CDict | CEnt, CEnt => true
-  | CObj a, CObj b => str_eqb a b
+  | CObj a u, CObj b u' => str_eqb a b && N.eqb u u'
   | _, _ => false
   end.
 Fixpoint hterm_eqb (x y : hterm) {struct x} : bool :=
@@ -374,13 +376,14 @@ Definition all_ranks : list (list N) :=
 Definition name_ok (name : list N) : bool := negb (existsb (str_eqb name) all_ranks).
 Definition str_key (k : key) : bool := match k with KStr _ => true | KInt _ => false end.
 
-Fixpoint cmp_ok (f : fam) (v : pv) : bool :=
+(* [cu]: the class table, __qualname__ -> the one class of that name *)
+Fixpoint cmp_ok (cu : list N -> N) (f : fam) (v : pv) : bool :=
   match v with
-  | PList _ l => forallb (cmp_ok f) l
+  | PList _ l => forallb (cmp_ok cu f) l
   | PTuple l => forallb (leaf_in_fam f) l
-  | PDict _ e => nodup_keys e && forallb (fun kv => cmp_ok f (snd kv)) e
-  | PObj name e => name_ok name && nodup_keys e && forallb (fun kv => str_key (fst kv)) e
-                   && forallb (fun kv => cmp_ok f (snd kv)) e
+  | PDict _ e => nodup_keys e && forallb (fun kv => cmp_ok cu f (snd kv)) e
+  | PObj name uid e => name_ok name && N.eqb uid (cu name) && nodup_keys e && forallb (fun kv => str_key (fst kv)) e
+                       && forallb (fun kv => cmp_ok cu f (snd kv)) e
   | _ => true
   end.
 
@@ -390,7 +393,7 @@ Fixpoint hashable (v : pv) : bool :=
   | PList s l => s && forallb hashable l
   | PTuple l => forallb hashable l
   | PDict s e => s && forallb (fun kv => hashable (snd kv)) e
-  | PObj _ e => forallb (fun kv => hashable (snd kv)) e
+  | PObj _ _ e => forallb (fun kv => hashable (snd kv)) e
   | _ => true
   end.
 
@@ -407,7 +410,7 @@ End WithTable.
 (* ---------------------------------------------------------------------------------------------
    wire format
    value ::= (0) MISSING | (1) None | (2 b) | (3 z) | (4 m e) | (5 str) | (6 sym (v ...)) list
-           | (7 (v ...)) tuple | (8 sym ((key v) ...)) dict | (9 str ((key v) ...)) object
+           | (7 (v ...)) tuple | (8 sym ((key v) ...)) dict | (9 str ((key v) ...) uid) object
    key   ::= (0 str) | (1 z)
    case  ::= (0 a b ops)   -> (eq ne lt gt (hash-a hash-b equal) ops?)   ops = 1: a is an instance of a class with
                                                                            use_symbolic_comparison; also print ==, !=, hash()
@@ -436,7 +439,7 @@ Fixpoint d_pv (fuel : nat) (x : tr) : option pv :=
     | L [I 6%Z; sy; L l] => do s <- dbool sy; do l' <- dall (d_pv f) l; Some (PList s l')
     | L [I 7%Z; L l] => do l' <- dall (d_pv f) l; Some (PTuple l')
     | L [I 8%Z; sy; L es] => do s <- dbool sy; do es' <- dall d_ent es; Some (PDict s es')
-    | L [I 9%Z; nm; L es] => do n <- dstr nm; do es' <- dall d_ent es; Some (PObj n es')
+    | L [I 9%Z; nm; L es; u] => do n <- dstr nm; do u' <- dN u; do es' <- dall d_ent es; Some (PObj n u' es')
     | _ => None
     end
   end.
